@@ -68,6 +68,43 @@ def replay_variable_keys(a):
     return {"reproduced": bool(out), "mismatches": out[:3], "rules_file": rules, "data": data}
 
 
+def replay_index_out_of_range(a):
+    """`L[i]` / `L.i` with |i| >= length on lists of 0, 1, 2 elements (and nested): the unresolved entry must name the LIST as the
+    value reached (never one of its elements, never the root)"""
+    import json as _json
+    exe = a.cli()
+    if not exe:
+        return {"reproduced": False, "note": "native build failed"}
+    data = '{"L": ["a", "b"],\n "S": ["only"],\n "E": [],\n "N": {"in": [[1, 2], [3]]}}\n'
+    want = {"l5": "/L", "l2": "/L", "ldot": "/L", "s1": "/S", "e0": "/E", "n2": "/N/in", "n02": "/N/in/0", "n11": "/N/in/1"}
+    rules = ("rule l5 {\n  L[5] == \"z\"\n}\nrule l2 {\n  L[2] == \"z\"\n}\nrule ldot {\n  L.7 == \"z\"\n}\nrule s1 {\n  S[1] == \"z\"\n}\n"
+             "rule e0 {\n  E[0] == \"z\"\n}\nrule n2 {\n  N.in[2] exists\n}\nrule n02 {\n  N.in[0][2] == 9\n}\nrule n11 {\n  N.in[1][1] == 9\n}\n")
+    rc, rep, err = a.run_structured(exe, rules, [data])
+    if not (rep and isinstance(rep, list) and rep):
+        return {"reproduced": False, "note": f"no report (exit {rc})"}
+    out, seen = [], set()
+    for x in rep[0].get("not_compliant", []):
+        if "Rule" not in x:
+            continue
+        name = x["Rule"]["name"]
+        seen.add(name)
+        paths = re.findall(r'"traversed_to": \{"path": "([^"]*)"', _json.dumps(x))
+        if not paths or any(p_ != want.get(name) for p_ in paths):
+            out.append({"rule": name, "expected_reached": want.get(name), "reported_reached": paths})
+    if seen != set(want):
+        out.append({"problem": "every rule indexes past the end and must FAIL", "failing": sorted(seen)})
+    return {"reproduced": bool(out), "mismatches": out[:4], "rules_file": rules, "data": data}
+
+
+def _replay_index(a, c):
+    if c:
+        c["replay"] = replay_queries(a)
+        if not c["replay"].get("reproduced"):
+            c["replay"] = replay_index_out_of_range(a)
+        c["reproduced"] = c["replay"].get("reproduced", False)
+        a.candidates.append(c)
+
+
 def replay_literal_variables(a):
     """a literal written in place and the same literal bound with `let` (file, rule and block scope) and used as a bare
     %v must give the same status (the reference is the in-place form)"""
@@ -185,7 +222,7 @@ def q_retrieve_index(a):
     c = a.discharge("query/retrieve_index", ex, bad,
                 "list index `[i]` for every i32: resolved to element |i| iff |i| < length, otherwise an unresolved entry that records the "
                     "list as the point reached; never out of bounds", witness=True)
-    _replay(a, c)
+    _replay_index(a, c)
 
 
 def q_map_resolved(a):
